@@ -24,6 +24,7 @@ type ModTarget struct {
 	E    Expr      // *p, p.f, m (map), ...
 	Heap *TypeExpr // "heap T": whole heap of pointer target / map type
 	MapOf bool     // "map m": the contents of map m
+	Group string   // "heaps NAME": every heap of a named group
 	Src  string
 }
 
@@ -68,6 +69,7 @@ type SpecParam struct {
 }
 
 type SpecFun struct {
+	Reads   string // for uninterpreted functions: "heaps G, heap T, ..."
 	Opaque  bool
 	Name    string
 	Params  []SpecParam
@@ -95,9 +97,10 @@ type ContractSet struct {
 	Funcs  []*FuncContract
 	Funs   []*SpecFun
 	Axioms []*Axiom
+	Groups map[string][]*TypeExpr // named groups of heap types: heaps NAME = T1, T2, ...
 }
 
-var kwRe = regexp.MustCompile(`^(func|extern|fun|ofun|axiom|lemma|aspect|requires|ensures|modifies|decreases|loop|pure|fresh|havocs|maypanic|panics|inline|assumed|props|noframe|uses)\b`)
+var kwRe = regexp.MustCompile(`^(func|extern|fun|ofun|heaps|axiom|lemma|aspect|requires|ensures|modifies|decreases|loop|pure|fresh|havocs|maypanic|panics|inline|assumed|props|noframe|uses)\b`)
 
 type rawItem struct {
 	kw   string
@@ -190,6 +193,26 @@ func (cs *ContractSet) load(path, pkgPath string) error {
 			}
 			cs.Funcs = append(cs.Funcs, fc)
 			cur = fc
+		case "heaps":
+			i := strings.Index(it.text, "=")
+			if i < 0 {
+				return fail(it, "heaps NAME = T1, T2, ...")
+			}
+			name := strings.TrimSpace(it.text[:i])
+			if cs.Groups == nil {
+				cs.Groups = map[string][]*TypeExpr{}
+			}
+			for _, t := range splitTop(it.text[i+1:], ',') {
+				if t == "" {
+					continue
+				}
+				te, err := parseTypeExpr(t)
+				if err != nil {
+					return fail(it, "%v", err)
+				}
+				cs.Groups[name] = append(cs.Groups[name], te)
+			}
+			cur = nil
 		case "fun", "ofun":
 			sf, err := parseSpecFun(it.text)
 			if err != nil {
@@ -363,6 +386,10 @@ func parseModifies(text string) ([]ModTarget, error) {
 		if part == "" {
 			continue
 		}
+		if strings.HasPrefix(part, "heaps ") {
+			out = append(out, ModTarget{Group: strings.TrimSpace(part[6:]), Src: part})
+			continue
+		}
 		if strings.HasPrefix(part, "heap ") {
 			ts, err := lex(strings.TrimSpace(part[5:]))
 			if err != nil {
@@ -434,6 +461,10 @@ func parseSpecFun(text string) (*SpecFun, error) {
 			return nil, err
 		}
 		sf.Params = append(sf.Params, SpecParam{Name: p[:k], Type: te})
+	}
+	if k := strings.Index(rest, " reads "); k >= 0 {
+		sf.Reads = strings.TrimSpace(rest[k+7:])
+		rest = strings.TrimSpace(rest[:k])
 	}
 	body := ""
 	if k := strings.Index(rest, "="); k >= 0 && !strings.HasPrefix(rest[k:], "==") {
